@@ -1,6 +1,13 @@
 package props
 
 import (
+	"fmt"
+
+	"github.com/ontio/ontology/common"
+	"github.com/ontio/ontology/common/config"
+	"github.com/ontio/ontology/consensus/vbft"
+	vconfig "github.com/ontio/ontology/consensus/vbft/config"
+
 	"ontosim/simkit"
 	"ontosim/world"
 )
@@ -9,15 +16,111 @@ func init() {
 	simkit.Register(&simkit.Prop{
 		ID:   "C29",
 		Desc: "each round selects well-formed proposer/endorser/committer sets, identically on every node",
-		Rule: "a run = N=4 or N=7 real vbft servers sealing 3..6 heights under message reordering and clock skips; the VRF seed of every round is whatever the real proposers produce; at every quiescent point every honest node's participant configuration of its current round is checked: C+1 distinct proposers, >= 2C+1 distinct endorsers, >= 2C+1 distinct committers, all members of the chain configuration, and identical to what every other node selected for that height. non-trivial = >= 3 distinct heights checked; distinct = distinct event-trace hash; states = distinct (height, selection) pairs",
+		Rule: "a run = N=4 or N=7 real vbft servers sealing 3..6 heights under message reordering and clock skips; the VRF seed of every round is whatever the real proposers produce; at every quiescent point every honest node's participant configuration of its current round is checked: C+1 distinct proposers, >= 2C+1 distinct endorsers, >= 2C+1 distinct committers, all members of the chain configuration, and identical to what every other node selected for that height. Before that, each run applies the same well-formedness and determinism checks to 3 generated configurations (real GenesisChainConfig over 4..40 peers, equal / unequal / whale-and-dust stakes, position tables of 2K..128K slots) with 1..12 tape-chosen seeds each, calling the real selection (calcParticipantPeers) directly. non-trivial = >= 3 distinct heights checked; distinct = distinct event-trace hash; states = distinct (height, selection) pairs",
 		Real: vbftReal, Stub: vbftStub,
-		Assumptions:   []string{"coverage is the VRF seeds and the genesis position tables the simulation produces, not all seeds/configurations (DESIGN 7, C29)"},
+		Assumptions:   []string{"inside the simulation the coverage is the VRF seeds and the genesis position tables the run produces; the generated-configuration part is plain seeded input generation (no schedule or fault dimension)"},
 		MaxShrinkRuns: 60,
 		Run:           runC29,
 	})
 }
 
+// c29Generated: the selection applied to generated configurations and seeds
+// (plain seeded input generation, no simulator dimension): chain configurations
+// derived by the real GenesisChainConfig from 4..40 peers with equal / unequal /
+// whale-and-dust stakes and position tables of 2K..128K slots (more slots than
+// the 512 draws a seed provides), 1..12 seeds each.
+func c29Generated(c *simkit.Ctx) {
+	t := c.Tape
+	k := uint32(t.Pick(3, 0, 0, 4, 1, 1, 1, 1, 1, 1, 1)*3 + 4) // 4, 13, 16, ... 34: any K >= 4
+	if t.Prob(1, 3) {
+		k = uint32(4 + t.Choose(37))
+	}
+	cf := uint32(1 + t.Choose(int((k-1)/3)))
+	mult := uint32(2 + t.Choose(31))
+	if t.Prob(1, 4) {
+		mult = []uint32{64, 80, 100, 128}[t.Choose(4)]
+	}
+	n := int(k) + t.Choose(4)
+	vcfg := &config.VBFTConfig{N: uint32(n), C: cf, K: k, L: k * mult, BlockMsgDelay: 10000, HashMsgDelay: 10000, PeerHandshakeTimeout: 10, MaxBlockChangeView: 1000}
+	mode := t.Pick(2, 2, 3, 1)
+	var peers []*config.VBFTPeerStakeInfo
+	var stakes []uint64
+	for i := 0; i < n; i++ {
+		var s uint64
+		switch mode {
+		case 0:
+			s = 100000
+		case 1:
+			s = uint64(1 + t.Choose(5000000))
+		case 2: // a few whales, the rest dust
+			if i < 1+int(cf) || t.Prob(1, 5) {
+				s = uint64(1000000 + t.Choose(9000000))
+			} else {
+				s = uint64(1 + t.Choose(20))
+			}
+		case 3:
+			s = uint64(t.Choose(3))
+		}
+		stakes = append(stakes, s)
+		peers = append(peers, &config.VBFTPeerStakeInfo{Index: uint32(i + 1), PeerPubkey: fmt.Sprintf("02%062x", 1000+i*7919%977), InitPos: s})
+	}
+	var txhash common.Uint256
+	chain, err := vconfig.GenesisChainConfig(vcfg, peers, txhash, 0)
+	if err != nil {
+		c.Probe("generated_config_refused")
+		return
+	}
+	members := map[uint32]bool{}
+	for _, p := range chain.Peers {
+		members[p.Index] = true
+	}
+	distinct := func(xs []uint32) int {
+		m := map[uint32]bool{}
+		for _, x := range xs {
+			m[x] = true
+		}
+		return len(m)
+	}
+	where := fmt.Sprintf("generated configuration K=%d C=%d L=%d stakes=%v", k, cf, len(chain.PosTable), stakes)
+	for i, ns := 0, 1+t.Choose(12); i < ns; i++ {
+		var vrf vconfig.VRFValue
+		copy(vrf[:], t.Bytes(len(vrf)))
+		var ps, es, cs []uint32
+		if pv := c30Recover(func() { ps, es, cs = vbft.SimCalcParticipants(vrf, chain) }); pv != nil {
+			c.Fail("selection-panics", "generated/"+c30PanicSig(pv), "%s seed %x: participant selection panics: %v", where, vrf[:8], pv)
+		}
+		desc := fmt.Sprintf("P=%v E=%v C=%v", ps, es, cs)
+		c.Probe("generated_selection_checked")
+		if len(chain.PosTable) > 512 {
+			c.Probe("generated_table_over_512_slots")
+		}
+		if len(ps) != int(cf)+1 || distinct(ps) != len(ps) {
+			c.Fail("proposer-set-malformed", "generated", "%s seed %x: %s", where, vrf[:8], desc)
+		}
+		if distinct(es) < 2*int(cf)+1 {
+			c.Fail("endorser-set-malformed", "generated", "%s seed %x: %s", where, vrf[:8], desc)
+		}
+		if distinct(cs) < 2*int(cf)+1 {
+			c.Fail("committer-set-malformed", "generated", "%s seed %x: %s", where, vrf[:8], desc)
+		}
+		for _, set := range [][]uint32{ps, es, cs} {
+			for _, x := range set {
+				if !members[x] {
+					c.Fail("participant-not-member", "generated", "%s seed %x: %d is not a peer of the configuration: %s", where, vrf[:8], x, desc)
+				}
+			}
+		}
+		ps2, es2, cs2 := vbft.SimCalcParticipants(vrf, chain)
+		if d2 := fmt.Sprintf("P=%v E=%v C=%v", ps2, es2, cs2); d2 != desc {
+			c.Fail("selection-not-deterministic", "generated", "%s seed %x: %s then %s", where, vrf[:8], desc, d2)
+		}
+	}
+}
+
 func runC29(c *simkit.Ctx) {
+	for i := 0; i < 3; i++ {
+		c29Generated(c)
+	}
 	c.Bubble(func() {
 		t := c.Tape
 		n, cf := 4, 1
